@@ -117,9 +117,16 @@ type c01In struct {
 	// kind reflect, wide family: every slice of the (fully set) value has Wide elements.
 	// kind wide: a stanza of kind Wrap that carries N extensions of GoType (seeds Seed..), by
 	// itself or (Nested) as the stanza forwarded by a delegation in an outer message
-	Wide   int  `json:"wide,omitempty"`
-	N      int  `json:"n,omitempty"`
-	Nested bool `json:"nested,omitempty"`
+	// kind reflect, time family: the TimeSlot-th time position holds TimeVal (RFC 3339 with
+	// nanoseconds, years beyond 9999 allowed); look-alike family: the NodeSlot-th position that
+	// can hold a generic node holds one of another namespace whose local name is NodeName
+	TimeSlot *int   `json:"timeslot,omitempty"`
+	TimeVal  string `json:"timeval,omitempty"`
+	NodeSlot *int   `json:"nodeslot,omitempty"`
+	NodeName string `json:"nodename,omitempty"`
+	Wide     int    `json:"wide,omitempty"`
+	N        int    `json:"n,omitempty"`
+	Nested   bool   `json:"nested,omitempty"`
 }
 
 // c01Tree: an element tree as Model/XmlPrint.v has them (Text != "" or !Elem: character data)
@@ -155,7 +162,7 @@ func (c01) Workers() int  { return 8 }
 // down (fatal stack overflow in the recursive Node encoder) is found again by the driver.
 func (c01) Journal() bool { return true }
 func (c01) Rule() string {
-	return "exhaustive: 3 stanza kinds x 2^5 presence patterns of type/id/from/to/lang x {no child, each child alone}; random: text fields from a pool (ASCII, each XML metacharacter alone and mixed, ]]>, blank-padded, TAB/LF/CR, non-ASCII, astral, 2 kB), Err with code 0/non-zero x fields empty/set, generic Node trees depth<=5 width<=4 with attributes and namespaces, registered extensions (subsets, order, repetition) filled by reflection, SM/SASL-auth/handshake elements; oracle-only reflection cases for every registered type and the SM/SASL/handshake elements, alone and inside its stanza kind; oracle-only subset sweep over which optional fields of each such type are set (every optional position at depth <= 3 is a slot: all-unset, all-set, every slot alone, every slot alone unset, all 2^k patterns when k <= 5 and all 2^g patterns of every group of <= 5 sibling fields with the rest unset / set; pointers nil/non-nil, strings empty/non-empty, numbers zero/non-zero, time.Time zero/non-zero, slices empty/non-empty); oracle-only: a generic payload nested 600000 levels deep (marshal, unmarshal, marshal), generic nodes with namespace-qualified attributes; oracle-only noise cases: every registered type inside its stanza kind with unknown children and same-named descendants (of the extension, of the enclosing element, of the stanza, of the core children) injected at random places of the extension's bytes, typed fields compared with the clean decode; texts with characters outside the XML range in every text position (they must come back as U+FFFD and change nothing else); names at the edges of encoding/xml's name grammar, measured on the decoder (every ASCII character and both sides of every edge of the start / continuation sets, alone, after a letter, between letters): accepted names as element names, attribute names and error conditions (must round trip), refused names one per case as a condition (Marshal must refuse) and as generic node / attribute names (model/code comparison only); stanza values that carry an XMLName (jabber:client and others: must make no difference); wire documents that are not the encoding of a value (stanzas in jabber:client / jabber:component:accept / no namespace with known, foreign, unknown and repeated children, numbers and booleans with white space and signs, wrong root names, random trees) decoded into every type: compared with the model's dec, and the parsed value must survive its own round trip; domain: an IQ whose Error pointer is non-nil and points to the all-empty Err is excluded (written as nothing, read back as nil; kept as a hypothesis of the theorem, wf_iq), generated only as an out-of-domain model/code comparison, as are a condition called text and generic nodes that are not namespace-explicit; integer edges: every integer position of the core, of every registered type and of the stream elements (fully set value) at both sides of the edges of its own Go type and of every narrower width (int8/16/32/64, uint8/16/32/64); wide values: every slice of every such type with 32 and 65 elements (thorough: 31, 32, 33, 64, 65, 300), and stanzas carrying 1, 31, 32, 33, 64, 65 extensions of every registered message / presence extension type, alone and as the stanza forwarded by a delegation in an outer message; distinct = kind + presence pattern of every field + text class + tree shape; non-trivial = at least one non-empty field besides the kind"
+	return "exhaustive: 3 stanza kinds x 2^5 presence patterns of type/id/from/to/lang x {no child, each child alone}; random: text fields from a pool (ASCII, each XML metacharacter alone and mixed, ]]>, blank-padded, TAB/LF/CR, non-ASCII, astral, 2 kB), Err with code 0/non-zero x fields empty/set, generic Node trees depth<=5 width<=4 with attributes and namespaces, registered extensions (subsets, order, repetition) filled by reflection, SM/SASL-auth/handshake elements; oracle-only reflection cases for every registered type and the SM/SASL/handshake elements, alone and inside its stanza kind; oracle-only subset sweep over which optional fields of each such type are set (every optional position at depth <= 3 is a slot: all-unset, all-set, every slot alone, every slot alone unset, all 2^k patterns when k <= 5 and all 2^g patterns of every group of <= 5 sibling fields with the rest unset / set; pointers nil/non-nil, strings empty/non-empty, numbers zero/non-zero, time.Time zero/non-zero, slices empty/non-empty); oracle-only: a generic payload nested 600000 levels deep (marshal, unmarshal, marshal), generic nodes with namespace-qualified attributes; oracle-only noise cases: every registered type inside its stanza kind with unknown children and same-named descendants (of the extension, of the enclosing element, of the stanza, of the core children) injected at random places of the extension's bytes, typed fields compared with the clean decode; texts with characters outside the XML range in every text position (they must come back as U+FFFD and change nothing else); names at the edges of encoding/xml's name grammar, measured on the decoder (every ASCII character and both sides of every edge of the start / continuation sets, alone, after a letter, between letters): accepted names as element names, attribute names and error conditions (must round trip), refused names one per case as a condition (Marshal must refuse) and as generic node / attribute names (model/code comparison only); stanza values that carry an XMLName (jabber:client and others: must make no difference); wire documents that are not the encoding of a value (stanzas in jabber:client / jabber:component:accept / no namespace with known, foreign, unknown and repeated children, numbers and booleans with white space and signs, wrong root names, random trees) decoded into every type: compared with the model's dec, and the parsed value must survive its own round trip; domain: an IQ whose Error pointer is non-nil and points to the all-empty Err is excluded (written as nothing, read back as nil; kept as a hypothesis of the theorem, wf_iq), generated only as an out-of-domain model/code comparison, as are a condition called text and generic nodes that are not namespace-explicit; integer edges: every integer position of the core, of every registered type and of the stream elements (fully set value) at both sides of the edges of its own Go type and of every narrower width (int8/16/32/64, uint8/16/32/64); wide values: every slice of every such type with 32 and 65 elements (thorough: 31, 32, 33, 64, 65, 300), and stanzas carrying 1, 31, 32, 33, 64, 65 extensions of every registered message / presence extension type, alone and as the stanza forwarded by a delegation in an outer message; time positions at the edges of what XEP-0082 carries (fractions down to the nanosecond, zones, years 0, 1, 9999, 10000 and beyond: a year outside 0..9999 must be refused by Marshal); every generic-node position of the types with a decoder of their own holding a node of ANOTHER namespace named like each child element the type itself writes; attributes of another namespace that share a local name with the element's own, on the root and the <error/> child of stanza wire documents and on the root of every extension with a decoder of its own (noise cases): they must not count; distinct = kind + presence pattern of every field + text class + tree shape; non-trivial = at least one non-empty field besides the kind"
 }
 
 // ---------------------------------------------------------------- pools
@@ -432,6 +439,7 @@ func c01Init() {
 
 // ---------------------------------------------------------------- reflection filler
 
+var c01UnmarshalerT = reflect.TypeOf((*xml.Unmarshaler)(nil)).Elem()
 var c01NameT = reflect.TypeOf(xml.Name{})
 var c01TimeT = reflect.TypeOf(time.Time{})
 var c01NullIntT = reflect.TypeOf(stanza.NullableInt{})
@@ -1358,7 +1366,11 @@ func c01PrintTree(t *c01XT, b *strings.Builder) {
 	if t.Space != "" {
 		b.WriteString(` xmlns="` + c01Esc(t.Space, true) + `"`)
 	}
-	for _, a := range t.Attrs {
+	for i, a := range t.Attrs {
+		if a.NS != "" { // an attribute of another namespace (wire documents only): its prefix is declared on the spot
+			fmt.Fprintf(b, ` xmlns:q%d="%s" q%d:%s="%s"`, i, c01Esc(a.NS, true), i, a.K, c01Esc(a.V, true))
+			continue
+		}
 		b.WriteString(" " + a.K + `="` + c01Esc(a.V, true) + `"`)
 	}
 	b.WriteString(">")
@@ -1394,10 +1406,13 @@ func c01TreeSx(t *c01XT) Sx {
 	return L(Z(0), SRunes(t.Space), SRunes(t.Local), c01KVsSx(t.Attrs), LS(kids))
 }
 
+// the tree model's attributes are the element's own, unqualified ones
 func c01KVsSx(kvs []c01KV) Sx {
-	out := make([]Sx, len(kvs))
-	for i, kv := range kvs {
-		out[i] = L(SRunes(kv.K), SRunes(kv.V))
+	out := make([]Sx, 0, len(kvs))
+	for _, kv := range kvs {
+		if kv.NS == "" {
+			out = append(out, L(SRunes(kv.K), SRunes(kv.V)))
+		}
 	}
 	return LS(out)
 }
@@ -1794,6 +1809,22 @@ func c01WireOracle(in c01In) (msg, sig string) {
 		return "", ""
 	}
 	goName := c01GoName[in.Into]
+	// attributes of another namespace are not the element's own: without them the document
+	// must be read as the same value
+	if plain, had := c01StripQualified(*in.Doc); had {
+		var pb strings.Builder
+		c01PrintTree(plain.xt(), &pb)
+		v0 := c01Fresh(in.Into)
+		if err := xml.Unmarshal([]byte(pb.String()), v0); err == nil {
+			if d := c01FirstDiff(c01Describe(v0), c01Describe(v1), ""); d != "" {
+				f := c01PathName(in.Into, d)
+				if in.Into != "message" && in.Into != "presence" && in.Into != "iq" {
+					f = c01SmallField(in.Into, d)
+				}
+				return fmt.Sprintf("an attribute of another namespace changes %s: %q is not read like %q", f, c01Short([]byte(sb.String())), c01Short([]byte(pb.String()))), "lookalike:" + goName + ":" + f
+			}
+		}
+	}
 	switch x := v1.(type) { // the two stated exclusions of the domain
 	case *stanza.IQ:
 		if x.Error != nil && (x.Error.Reason == "text" || (x.Error.Code == 0 && x.Error.Type == "" && x.Error.Reason == "" && x.Error.Text == "")) {
@@ -1828,6 +1859,44 @@ func c01WireOracle(in c01In) (msg, sig string) {
 		return fmt.Sprintf("the value parsed from %q is written as %q and then as %q (err %v)", c01Short([]byte(sb.String())), c01Short(b1), c01Short(b2), err), "unstable:" + goName + ":bytes"
 	}
 	return "", ""
+}
+
+// c01StripQualified: the document without its namespace-qualified attributes
+func c01StripQualified(t c01Tree) (c01Tree, bool) {
+	out, had := t, false
+	out.Attrs = nil
+	for _, a := range t.Attrs {
+		if a.NS != "" {
+			had = true
+			continue
+		}
+		out.Attrs = append(out.Attrs, a)
+	}
+	out.Kids = nil
+	for _, k := range t.Kids {
+		k2, h := c01StripQualified(k)
+		had = had || h
+		out.Kids = append(out.Kids, k2)
+	}
+	return out, had
+}
+
+// c01WithLookalikes: every attribute of the root and of its <error/> children once more, with
+// another value, in another namespace (after the real one: the decoders' loops let the last match win)
+func c01WithLookalikes(t c01Tree) c01Tree {
+	out := t
+	out.Attrs = append([]c01KV{}, t.Attrs...)
+	for _, k := range []string{"type", "code", "id", "from", "to", "lang", "h"} {
+		out.Attrs = append(out.Attrs, c01KV{K: k, V: "9" + k, NS: "urn:verif:other"})
+	}
+	out.Kids = nil
+	for _, k := range t.Kids {
+		if k.Elem && k.Local == "error" && k.Space == t.Space {
+			k = c01WithLookalikes(k) // the stanza's own <error/>; one of another namespace is generic content and keeps its attributes
+		}
+		out.Kids = append(out.Kids, k)
+	}
+	return out
 }
 
 var c01GoName = map[string]string{"message": "stanza.Message", "presence": "stanza.Presence", "iq": "stanza.IQ", "node": "stanza.Node",
@@ -1982,7 +2051,7 @@ func c01PathName(kind, path string) string {
 
 func (c01) Oracle(inp interface{}, obs Sx) (string, string) {
 	in := inp.(c01In)
-	if in.Kind == "reflect" && (in.IntSlot != nil || in.Wide > 0) {
+	if in.Kind == "reflect" && (in.IntSlot != nil || in.Wide > 0 || in.TimeSlot != nil || in.NodeSlot != nil) {
 		return c01ShapedRoundTrip(in)
 	}
 	if in.Kind == "wide" {
@@ -2153,6 +2222,14 @@ func (c01) Key(inp interface{}) (string, bool) {
 	if in.Kind == "reflect" && in.IntSlot != nil {
 		hist("int-edge:" + in.GoType)
 		return fmt.Sprintf("edge/%s/%s/%d/%s", in.GoType, in.Wrap, *in.IntSlot, in.IntVal), true
+	}
+	if in.Kind == "reflect" && in.TimeSlot != nil {
+		hist("time-edge:" + in.GoType)
+		return fmt.Sprintf("time/%s/%s/%d/%s", in.GoType, in.Wrap, *in.TimeSlot, in.TimeVal), true
+	}
+	if in.Kind == "reflect" && in.NodeSlot != nil {
+		hist("lookalike-node:" + in.GoType)
+		return fmt.Sprintf("lookalike/%s/%s/%d/%s", in.GoType, in.Wrap, *in.NodeSlot, in.NodeName), true
 	}
 	if in.Kind == "reflect" && in.Wide > 0 {
 		hist(fmt.Sprintf("wide-slices:n=%d", in.Wide))
@@ -2610,6 +2687,7 @@ func (c01) Gen(r *rand.Rand, tier string) []interface{} {
 		}
 	}
 	c01GenEdgesAndWide(tier, regs, add)
+	c01GenTimeAndLookalikes(regs, add)
 	return out
 }
 
@@ -2790,6 +2868,19 @@ func c01NoiseRoundTrip(goType string, seed int64, wrap string) (msg, sig string)
 		pt := chosen[o]
 		ins := c01NoiseEl(r, 1, rootL, rootN, pt.parentL, pt.parentN, wrap)
 		nb = append(nb[:o], append([]byte(ins), nb[o:]...)...)
+	}
+	if t := c01TypeOf[goType]; t != nil && reflect.PtrTo(t).Implements(c01UnmarshalerT) && len(nb) > len(rootL)+1 {
+		// a decoder of the library's own reads the attributes of its element itself: look-alikes
+		// of another namespace, placed last, must not count (tag-driven types are read by
+		// encoding/xml, which matches an attribute by its local name in any namespace)
+		var qa strings.Builder
+		qa.WriteString(` xmlns:vq="` + c01NoiseNS + `"`)
+		for _, k := range []string{"node", "action", "sessionid", "status", "lang", "type", "id", "code"} {
+			qa.WriteString(` vq:` + k + `="evil"`)
+		}
+		if end := bytes.IndexByte(nb, '>'); end > 0 {
+			nb = append(nb[:end], append([]byte(qa.String()), nb[end:]...)...)
+		}
 	}
 	var open, closeTag string
 	switch wrap {
@@ -3051,7 +3142,15 @@ var c01WireBools = []string{"true", "false", "1", "0", "t", "F", "TRUE", "True",
 
 // c01GenWire: documents that are not the encoding of a value, decoded into each type
 func c01GenWire(r *rand.Rand, tier string, add func(c01In)) {
-	w := func(into string, doc c01Tree) { d := doc; add(c01In{Kind: "wire", Into: into, Doc: &d}) }
+	nw := 0
+	w := func(into string, doc c01Tree) {
+		d := doc
+		add(c01In{Kind: "wire", Into: into, Doc: &d})
+		if nw++; (into == "message" || into == "presence" || into == "iq" || into == "smfailed") && (tier == "thorough" || nw%3 == 0) {
+			q := c01WithLookalikes(doc)
+			add(c01In{Kind: "wire", Into: into, Doc: &q})
+		}
+	}
 	for _, own := range []string{"", "jabber:client", c01NSComp} {
 		// every core child in the stanza's own namespace, text around them, an unknown child, a
 		// look-alike in another namespace, repeated children
@@ -3337,6 +3436,46 @@ func c01ShapedRoundTrip(in c01In) (msg, sig string) {
 		}
 		what = fmt.Sprintf(" [integer position %d = %s]", *in.IntSlot, in.IntVal)
 	}
+	outOfRange := false
+	if in.TimeSlot != nil {
+		tv, ok := c01ParseTimeVal(in.TimeVal)
+		k, done := 0, false
+		c01TimeLeaves(p, 0, func(v reflect.Value) {
+			if k == *in.TimeSlot && ok {
+				v.Set(reflect.ValueOf(tv))
+				done = true
+			}
+			k++
+		})
+		if !done {
+			return "", ""
+		}
+		outOfRange = tv.UTC().Year() < 0 || tv.UTC().Year() > 9999
+		what = fmt.Sprintf(" [time position %d = %s]", *in.TimeSlot, in.TimeVal)
+	}
+	if in.NodeSlot != nil {
+		k, done := 0, false
+		c01NodePositions(p, 0, func(set func(n *stanza.Node)) {
+			if k == *in.NodeSlot {
+				ns := "urn:verif:lookalike"
+				set(&stanza.Node{XMLName: xml.Name{Space: ns, Local: in.NodeName}, Attrs: []xml.Attr{{Name: xml.Name{Local: "author"}, Value: "juliet"}},
+					Nodes: []stanza.Node{{XMLName: xml.Name{Space: ns, Local: "line"}, Content: "first"}}})
+				done = true
+			}
+			k++
+		})
+		if !done {
+			return "", ""
+		}
+		what = fmt.Sprintf(" [generic node position %d = <%s xmlns=urn:verif:lookalike>]", *in.NodeSlot, in.NodeName)
+	}
+	if outOfRange {
+		// XEP-0082 / RFC 3339 have four-digit years: such an instant cannot be written. Marshal
+		// must say so (as time.Time.MarshalText does) rather than write something unreadable.
+		if _, err := xml.Marshal(p.Interface()); err != nil {
+			return "", ""
+		}
+	}
 	if in.Wide > 0 {
 		c01Widen(p, in.Wide, rand.New(rand.NewSource(in.Seed+int64(in.Wide))), 0)
 		what += fmt.Sprintf(" [every slice with %d elements]", in.Wide)
@@ -3447,6 +3586,200 @@ func c01GenEdgesAndWide(tier string, regs []c01RegEntry, add func(c01In)) {
 		for _, n := range []int{1, 31, 32, 33, 64, 65} {
 			for _, nested := range []bool{false, true} {
 				add(c01In{Kind: "wide", GoType: e.GoType, Seed: 11, Wrap: []string{"presence", "message"}[e.Kind], N: n, Nested: nested})
+			}
+		}
+	}
+}
+
+// ---------------------------------------------------------------- time edges, look-alike generic nodes
+
+// c01ParseTimeVal: "Y-MM-DDTHH:MM:SS.nnnnnnnnn+ZZ:ZZ" with a year of any size and sign
+func c01ParseTimeVal(s string) (time.Time, bool) {
+	var y, mo, d, h, mi, sec, ns, zh, zm int
+	var sign byte
+	if _, err := fmt.Sscanf(s, "%d-%02d-%02dT%02d:%02d:%02d.%09d%c%02d:%02d", &y, &mo, &d, &h, &mi, &sec, &ns, &sign, &zh, &zm); err != nil {
+		return time.Time{}, false
+	}
+	off := zh*3600 + zm*60
+	if sign == '-' {
+		off = -off
+	}
+	loc := time.UTC
+	if off != 0 {
+		loc = time.FixedZone("z", off)
+	}
+	return time.Date(y, time.Month(mo), d, h, mi, sec, ns, loc), true
+}
+
+var c01TimeEdges = []string{
+	"2021-03-04T05:06:07.250000000+00:00", "2021-03-04T05:06:07.000000001+00:00", "2021-03-04T05:06:07.999999999+00:00",
+	"2021-03-04T05:06:07.123456000+02:00", "2021-12-31T23:59:59.500000000-07:00", "1970-01-01T00:00:00.000000000+00:00",
+	"1969-12-31T23:59:59.999000000+00:00", "0001-01-01T00:00:01.000000000+00:00", "0000-06-01T00:00:00.000000000+00:00",
+	"9999-12-31T23:59:59.999999999+00:00", "9999-12-31T23:59:59.000000000-01:00", "10000-01-01T00:00:00.000000000+00:00",
+	"-0001-12-31T23:59:59.000000000+00:00", "292277026596-12-04T15:30:07.000000000+00:00",
+}
+
+// c01TimeLeaves: every settable time.Time position of a value
+func c01TimeLeaves(v reflect.Value, depth int, visit func(reflect.Value)) {
+	if depth > 8 {
+		return
+	}
+	switch v.Kind() {
+	case reflect.Ptr, reflect.Interface:
+		if !v.IsNil() {
+			c01TimeLeaves(v.Elem(), depth+1, visit)
+		}
+	case reflect.Slice:
+		for i := 0; i < v.Len(); i++ {
+			c01TimeLeaves(v.Index(i), depth+1, visit)
+		}
+	case reflect.Struct:
+		if v.Type() == c01TimeT {
+			if v.CanSet() {
+				visit(v)
+			}
+			return
+		}
+		if c01IsLeafStruct(v.Type()) {
+			return
+		}
+		for i := 0; i < v.NumField(); i++ {
+			if v.Type().Field(i).PkgPath == "" {
+				c01TimeLeaves(v.Field(i), depth+1, visit)
+			}
+		}
+	}
+}
+
+// c01NodePositions: the places of a value, directly in a struct whose decoder is the library's
+// own (it implements xml.Unmarshaler), that can hold a generic node: *Node, []Node, an interface
+// or a slice of an interface that Node implements. set puts exactly one node there.
+func c01NodePositions(v reflect.Value, depth int, visit func(set func(n *stanza.Node))) {
+	if depth > 6 {
+		return
+	}
+	switch v.Kind() {
+	case reflect.Ptr, reflect.Interface:
+		if !v.IsNil() {
+			c01NodePositions(v.Elem(), depth+1, visit)
+		}
+	case reflect.Slice:
+		for i := 0; i < v.Len(); i++ {
+			c01NodePositions(v.Index(i), depth+1, visit)
+		}
+	case reflect.Struct:
+		t := v.Type()
+		if c01IsLeafStruct(t) {
+			return
+		}
+		own := reflect.PtrTo(t).Implements(c01UnmarshalerT)
+		nodeP := reflect.TypeOf(&stanza.Node{})
+		for i := 0; i < t.NumField(); i++ {
+			f, fv := t.Field(i), v.Field(i)
+			if f.PkgPath != "" || !fv.CanSet() {
+				continue
+			}
+			ft := f.Type
+			if f.Anonymous || (ft.Kind() == reflect.Interface && ft.NumMethod() == 0) {
+				continue // the embedded marker interfaces (MsgExtension, PresExtension) hold no content
+			}
+			switch {
+			case own && ft == nodeP:
+				visit(func(n *stanza.Node) { fv.Set(reflect.ValueOf(n)) })
+			case own && ft.Kind() == reflect.Slice && ft.Elem() == c01NodeT:
+				visit(func(n *stanza.Node) { fv.Set(reflect.Append(reflect.MakeSlice(ft, 0, 1), reflect.ValueOf(*n))) })
+			case own && ft.Kind() == reflect.Interface && nodeP.Implements(ft):
+				visit(func(n *stanza.Node) { fv.Set(reflect.ValueOf(n)) })
+			case own && ft.Kind() == reflect.Slice && ft.Elem().Kind() == reflect.Interface && nodeP.Implements(ft.Elem()):
+				visit(func(n *stanza.Node) { fv.Set(reflect.Append(reflect.MakeSlice(ft, 0, 1), reflect.ValueOf(n))) })
+			default:
+				c01NodePositions(fv, depth+1, visit)
+			}
+		}
+	}
+}
+
+// c01ElementNames: the local names of the child elements a type and the types below it write
+// (struct tags, tag-named XMLName of the implementations of its interface-typed fields)
+func c01ElementNames(t reflect.Type, depth int, out map[string]bool) {
+	for t.Kind() == reflect.Ptr || t.Kind() == reflect.Slice {
+		t = t.Elem()
+	}
+	if depth > 3 {
+		return
+	}
+	if t.Kind() == reflect.Interface {
+		for _, it := range c01Impls[t] {
+			if f, ok := it.FieldByName("XMLName"); ok {
+				if name, _ := c01TagInfo(f); name != "" {
+					out[name] = true
+				}
+			}
+			c01ElementNames(it, depth+1, out)
+		}
+		return
+	}
+	if t.Kind() != reflect.Struct || c01IsLeafStruct(t) {
+		return
+	}
+	for i := 0; i < t.NumField(); i++ {
+		f := t.Field(i)
+		name, flags := c01TagInfo(f)
+		if f.PkgPath != "" || name == "-" || f.Name == "XMLName" || flags["attr"] || flags["chardata"] || flags["cdata"] || flags["innerxml"] || flags["comment"] || flags["any"] {
+			continue
+		}
+		if name != "" {
+			out[name] = true
+		}
+		c01ElementNames(f.Type, depth+1, out)
+	}
+}
+
+// c01GenTimeAndLookalikes: every time position of every registered type at the edges of what
+// XEP-0082 can carry (fractions of a second down to the nanosecond, zones, years 0 / 1 / 9999 and
+// beyond); every generic-node position of the types with a decoder of their own holding a node
+// of ANOTHER namespace named like each child element the type itself writes.
+func c01GenTimeAndLookalikes(regs []c01RegEntry, add func(c01In)) {
+	seen := map[string]bool{}
+	for _, e := range regs {
+		if seen[e.GoType] {
+			continue
+		}
+		seen[e.GoType] = true
+		wrap := ""
+		if e.Local != "*" {
+			wrap = []string{"presence", "message", "iq"}[e.Kind]
+		}
+		p, ok := c01AllSet(e.GoType, 7)
+		if !ok {
+			continue
+		}
+		nt := 0
+		c01TimeLeaves(p, 0, func(reflect.Value) { nt++ })
+		for k := 0; k < nt; k++ {
+			k := k
+			for _, tv := range c01TimeEdges {
+				add(c01In{Kind: "reflect", GoType: e.GoType, Seed: 7, Wrap: wrap, TimeSlot: &k, TimeVal: tv})
+			}
+		}
+		nn := 0
+		c01NodePositions(p, 0, func(func(*stanza.Node)) { nn++ })
+		if nn == 0 {
+			continue
+		}
+		names := map[string]bool{}
+		c01ElementNames(c01TypeOf[e.GoType], 0, names)
+		var sorted []string
+		for n := range names {
+			if c01IsName(n) {
+				sorted = append(sorted, n)
+			}
+		}
+		sort.Strings(sorted)
+		for k := 0; k < nn; k++ {
+			k := k
+			for _, n := range sorted {
+				add(c01In{Kind: "reflect", GoType: e.GoType, Seed: 7, Wrap: wrap, NodeSlot: &k, NodeName: n})
 			}
 		}
 	}
